@@ -49,6 +49,19 @@ def build_grid(g):
         base = build_grid(g["base"])
         u = base.to_unstructured()
         pts, cells, types = np.array(u.points), np.array(u.cells), np.array(u.cell_types)
+        if g.get("split"):
+            # mixed-element mesh: some quadrilaterals are cut into two triangles (rows padded with -1)
+            tri, quad = fm.CellType.TRI.value, fm.CellType.QUAD.value
+            nc, nt = [], []
+            for k, (row, ty) in enumerate(zip(cells.tolist(), types.tolist())):
+                if k in g["split"] and ty == quad:
+                    a, b, c, dd = row[:4]
+                    nc += [[a, b, c, -1], [a, c, dd, -1]]
+                    nt += [tri, tri]
+                else:
+                    nc.append(row[:4])
+                    nt.append(ty)
+            cells, types = np.array(nc), np.array(nt)
         if g["loc"] == "CELLS":
             perm = np.array(g["perm"])
             cells, types = cells[perm], types[perm]
@@ -127,11 +140,17 @@ def gen_grid(rng, d, kinds=("uniform", "rect", "esri", "ucells", "upoints")):
         loc = rng.choice(["CELLS", "POINTS"])
         base["loc"] = loc
         g = build_grid(base)
-        n = int(g.cell_count if loc == "CELLS" else g.point_count)
+        split = []
+        if d == 2 and rng.random() < 0.4:
+            split = sorted(k for k in range(int(g.cell_count)) if rng.random() < 0.5)
+        n = int(g.cell_count + len(split) if loc == "CELLS" else g.point_count)
         perm = list(range(n))
         if rng.random() < 0.7:
             rng.shuffle(perm)
-        return {"kind": "ucells", "base": base, "perm": perm, "loc": loc, "order": rng.choice(["C", "F"])}
+        spec = {"kind": "ucells", "base": base, "perm": perm, "loc": loc, "order": rng.choice(["C", "F"])}
+        if split:
+            spec["split"] = split
+        return spec
     n = rng.randrange(d + 2, 13)
     pts = set()
     while len(pts) < n:
